@@ -39,6 +39,67 @@ impl Src for KaniSrc {
     fn bool(&mut self) -> bool { kani::any() }
 }
 
+/// Replay INSIDE the model checker (used where a native replay is impossible:
+/// C42's counterexamples are thread schedules). With the harness crate's feature
+/// `kreplay` the values Kani printed for a counterexample are compiled in
+/// (`kreplay_values.in`) and every draw — of the harness body and of the
+/// environment — returns the next recorded value, so CBMC executes exactly that
+/// one run of the real code with the same stubs.
+#[cfg(all(kani, feature = "kreplay"))]
+pub mod kreplay {
+    pub static VALUES: &[&[u8]] = include!(concat!(env!("CARGO_MANIFEST_DIR"), "/src/kreplay_values.in"));
+    pub static mut POS: usize = 0;
+    pub fn next<const N: usize>() -> [u8; N] {
+        unsafe {
+            let p = *std::ptr::addr_of!(POS);
+            *std::ptr::addr_of_mut!(POS) = p + 1;
+            let mut a = [0u8; N];
+            if p < VALUES.len() && VALUES[p].len() == N {
+                let mut i = 0;
+                while i < N {
+                    a[i] = VALUES[p][i];
+                    i += 1;
+                }
+            } else {
+                // recorded values do not fit this run: make the replay vacuous
+                kani::assume(false);
+            }
+            a
+        }
+    }
+}
+
+/// Draws made by environment models (schedulers) outside a harness body.
+#[cfg(all(kani, not(feature = "kreplay")))]
+pub fn env_u32() -> u32 {
+    kani::any()
+}
+#[cfg(all(kani, not(feature = "kreplay")))]
+pub fn env_bool() -> bool {
+    kani::any()
+}
+#[cfg(all(kani, feature = "kreplay"))]
+pub fn env_u32() -> u32 {
+    u32::from_le_bytes(kreplay::next::<4>())
+}
+#[cfg(all(kani, feature = "kreplay"))]
+pub fn env_bool() -> bool {
+    kreplay::next::<1>()[0] != 0
+}
+
+#[cfg(all(kani, feature = "kreplay"))]
+pub struct FixedSrc;
+#[cfg(all(kani, feature = "kreplay"))]
+impl Src for FixedSrc {
+    fn u8(&mut self) -> u8 { kreplay::next::<1>()[0] }
+    fn u16(&mut self) -> u16 { u16::from_le_bytes(kreplay::next::<2>()) }
+    fn u32(&mut self) -> u32 { u32::from_le_bytes(kreplay::next::<4>()) }
+    fn u64(&mut self) -> u64 { u64::from_le_bytes(kreplay::next::<8>()) }
+    fn u128(&mut self) -> u128 { u128::from_le_bytes(kreplay::next::<16>()) }
+    fn i128(&mut self) -> i128 { i128::from_le_bytes(kreplay::next::<16>()) }
+    fn bool(&mut self) -> bool { kreplay::next::<1>()[0] != 0 }
+}
+
 /// Exit code of the replay binary when the recorded values do not fit the
 /// body (wrong width / ran out / assumption false): the replay is inconclusive.
 pub const REPLAY_DESYNC: i32 = 3;
